@@ -66,16 +66,16 @@ func c20Survivors(sp *c20Target, style int) int64 {
 	switch style {
 	case 1:
 		if sp.Samples > 0 {
-			return int64(sp.Samples - 1)
+			return int64(sp.Samples - 1 + sp.Exemplars)
 		}
-		return 0
+		return int64(sp.Exemplars)
 	case 2:
 		if sp.Samples > 5 {
 			return 5
 		}
 		return int64(sp.Samples)
 	}
-	return int64(sp.Samples)
+	return int64(sp.Samples + sp.Exemplars)
 }
 
 func c20Config(jobs []string) string {
@@ -108,6 +108,10 @@ type c20Target struct {
 	BreakBody bool `json:"breakBody,omitempty"`
 	// CType: Content-Type of the target's answers: "" = text/plain, "none" = no header, otherwise as given
 	CType string `json:"ctype,omitempty"`
+	// Exemplars: an OpenMetrics answer ends with that many samples that carry an exemplar, alternately without and
+	// with labels (`rpc_3_total 17 # {trace_id="a3"} 0.67 1520879607.789`), and `# EOF`; each is one sample which no
+	// rule of style 0 or 1 touches and which the keep rule of style 2 drops
+	Exemplars int `json:"exemplars,omitempty"`
 }
 
 // brokenBody delivers data and then fails.
@@ -208,6 +212,16 @@ func (f *farm) RoundTrip(r *http.Request) (*http.Response, error) {
 	}
 	for i := 0; i < sp.Dropped; i++ {
 		fmt.Fprintf(&b, "drop_me{i=\"%d\"} 1\n", i)
+	}
+	for i := 0; i < sp.Exemplars; i++ {
+		if i%2 == 0 {
+			fmt.Fprintf(&b, "rpc_%d_total %d # {trace_id=\"a%d\"} 0.67 1520879607.789\n", i, 17+i, i)
+		} else {
+			fmt.Fprintf(&b, "rpc_%d_total{code=\"200\"} %d # {trace_id=\"a%d\"} 1.0\n", i, 17+i, i)
+		}
+	}
+	if sp.Exemplars > 0 {
+		b.WriteString("# EOF\n")
 	}
 	hdr := http.Header{"Content-Type": []string{"text/plain"}}
 	if sp.CType == "none" {
@@ -483,14 +497,14 @@ func runC20(rec *vkit.Recorder, c *c20Case) []vkit.Violation {
 		}
 		wantSeries := c20Survivors(sp, c.RuleStyle)
 		if c.RulesReloaded {
-			wantSeries = int64(sp.Samples + sp.Dropped) // the rules in force drop nothing
+			wantSeries = int64(sp.Samples + sp.Dropped + sp.Exemplars) // the rules in force drop nothing
 		}
-		if string(st.Health) != "up" || st.Series != wantSeries || st.TotalSeries != int64(sp.Samples+sp.Dropped) {
+		if string(st.Health) != "up" || st.Series != wantSeries || st.TotalSeries != int64(sp.Samples+sp.Dropped+sp.Exemplars) {
 			k := "C20/estimate-wrong"
 			if c.RulesReloaded {
 				k += "/after-rules-reload"
 			}
-			add(k, "target %d: probe returned %d samples of which %d survive the metric relabeling in force, Get reports health %q series %d totalSeries %d", h, sp.Samples+sp.Dropped, wantSeries, st.Health, st.Series, st.TotalSeries)
+			add(k, "target %d: probe returned %d samples (%d of them with an exemplar) of which %d survive the metric relabeling in force, Get reports health %q series %d totalSeries %d", h, sp.Samples+sp.Dropped+sp.Exemplars, sp.Exemplars, wantSeries, st.Health, st.Series, st.TotalSeries)
 		}
 	}
 	// ---- request log oracles
@@ -568,6 +582,12 @@ func runC20(rec *vkit.Recorder, c *c20Case) []vkit.Violation {
 	if jobBrokenSeen {
 		cls = append(cls, "job-client-broken-for-a-while")
 	}
+	for i := range c.Targets {
+		if c.Targets[i].Exemplars > 0 && c.Targets[i].FailFirst >= 0 {
+			cls = append(cls, "openmetrics-answer-with-exemplars")
+			break
+		}
+	}
 	b, _ := json.Marshal(c)
 	rec.Eval(nt, vkit.Digest(string(b)), cls...)
 	return vs
@@ -584,6 +604,10 @@ func genC20(t *rapid.T) *c20Case {
 			Dropped: rapid.IntRange(0, 5).Draw(t, l+"-dropped"), HoldMs: rapid.IntRange(1, 3).Draw(t, l+"-hold"),
 			BreakBody: rapid.IntRange(0, 2).Draw(t, l+"-breakBody") == 0,
 			CType:     rapid.SampledFrom([]string{"", "", "none", "text/plain; version=0.0.4; charset=utf-8", "application/octet-stream"}).Draw(t, l+"-ctype")})
+		if rapid.IntRange(0, 3).Draw(t, l+"-openmetrics") == 0 {
+			c.Targets[i].CType = "application/openmetrics-text; version=1.0.0; charset=utf-8"
+			c.Targets[i].Exemplars = rapid.IntRange(1, 4).Draw(t, l+"-exemplars")
+		}
 	}
 	ne := rapid.IntRange(1, 14).Draw(t, "nEvents")
 	for i := 0; i < ne; i++ {
